@@ -66,6 +66,9 @@ type r6ctx struct {
 	sums     map[*ssa.Function]*r6sum
 	busy     map[*ssa.Function]bool
 	opaque   map[*ssa.Function]bool // calls treated as balanced (delta 0): recursive value dispatchers
+	// summaries of methods of helper types embedded by value in the receiver (a counter bundled with its
+	// operations), keyed by function and the field path of the helper inside the receiver
+	subSums map[string]*r6sum
 }
 
 type r6sum struct {
@@ -75,10 +78,74 @@ type r6sum struct {
 }
 
 type r6client struct {
-	c   *r6ctx
-	fn  *ssa.Function
-	num *valueNumbering
-	out *r6sum
+	c      *r6ctx
+	fn     *ssa.Function
+	prefix string // field path of fn's receiver inside the checked receiver type ("" for its own methods)
+	num    *valueNumbering
+	out    *r6sum
+}
+
+// recvPath: addr is the receiver pointer itself or the address of a (nested,
+// by-value) field of it; returns the dotted field path ("" for the receiver).
+func recvPath(f *ssa.Function, addr ssa.Value) (string, bool) {
+	if f.Signature.Recv() == nil || len(f.Params) == 0 {
+		return "", false
+	}
+	var parts []string
+	for i := 0; i < 6; i++ {
+		if addr == ssa.Value(f.Params[0]) {
+			for l, r := 0, len(parts)-1; l < r; l, r = l+1, r-1 {
+				parts[l], parts[r] = parts[r], parts[l]
+			}
+			return strings.Join(parts, "."), true
+		}
+		fa, ok := addr.(*ssa.FieldAddr)
+		if !ok {
+			return "", false
+		}
+		st, ok := fa.X.Type().Underlying().(*types.Pointer).Elem().Underlying().(*types.Struct)
+		if !ok {
+			return "", false
+		}
+		parts = append(parts, core.FieldName(st, fa.Field))
+		addr = fa.X
+	}
+	return "", false
+}
+
+func joinPath(a, b string) string {
+	switch {
+	case a == "":
+		return b
+	case b == "":
+		return a
+	}
+	return a + "." + b
+}
+
+// counterAt: the counter a field address of the current function denotes.
+func (k *r6client) counterAt(addr ssa.Value) string {
+	if rel, ok := recvPath(k.fn, addr); ok {
+		if full := joinPath(k.prefix, rel); full != "" && k.c.counters[full] {
+			return full
+		}
+	}
+	if k.prefix == "" {
+		if f := fieldOfReceiver(k.fn, addr); f != "" && k.c.counters[f] {
+			return f
+		}
+	}
+	return ""
+}
+
+// holdsCounter: some counter lives at or below the field path.
+func (c *r6ctx) holdsCounter(path string) bool {
+	for cn := range c.counters {
+		if cn == path || strings.HasPrefix(cn, path+".") {
+			return true
+		}
+	}
+	return false
 }
 
 func (k *r6client) Key(s r6state) string {
@@ -133,10 +200,9 @@ func (k *r6client) Instr(s r6state, in ssa.Instruction) (r6state, bool, []r6stat
 	switch x := in.(type) {
 	case *ssa.Store:
 		// depth++ / depth--
-		f := k.recvField(x.Addr)
-		if f != "" && k.c.counters[f] {
+		if f := k.counterAt(x.Addr); f != "" {
 			if bo, ok := x.Val.(*ssa.BinOp); ok && (bo.Op == token.ADD || bo.Op == token.SUB) {
-				if ld, ok := bo.X.(*ssa.UnOp); ok && ld.Op == token.MUL && k.recvField(ld.X) == f && isIntConst(bo.Y, 1) {
+				if ld, ok := bo.X.(*ssa.UnOp); ok && ld.Op == token.MUL && k.counterAt(ld.X) == f && isIntConst(bo.Y, 1) {
 					d := 1
 					if bo.Op == token.SUB {
 						d = -1
@@ -145,7 +211,7 @@ func (k *r6client) Instr(s r6state, in ssa.Instruction) (r6state, bool, []r6stat
 				}
 			}
 			// any other store to a counter (reset) is outside the contract
-			if fa, ok := x.Addr.(*ssa.FieldAddr); ok && fa.X == ssa.Value(k.fn.Params[0]) {
+			if rel, ok := recvPath(k.fn, x.Addr); ok && joinPath(k.prefix, rel) == f {
 				s.top = true
 			}
 		}
@@ -157,7 +223,7 @@ func (k *r6client) Instr(s r6state, in ssa.Instruction) (r6state, bool, []r6stat
 		}
 		// push/pop on a counter field
 		if (core.FuncName(sc) == "push" || core.FuncName(sc) == "pop") && sc.Signature.Recv() != nil {
-			if f := k.recvField(cc.Args[0]); f != "" && k.c.counters[f] {
+			if f := k.counterAt(cc.Args[0]); f != "" {
 				d := 1
 				if core.FuncName(sc) == "pop" {
 					d = -1
@@ -165,47 +231,86 @@ func (k *r6client) Instr(s r6state, in ssa.Instruction) (r6state, bool, []r6stat
 				return s.add(f, d), true, nil
 			}
 		}
+		// a method of a helper value embedded in the instance that carries one of the counters
+		if rel, ok := recvPath(k.fn, cc.Args[0]); ok && sc.Signature.Recv() != nil && sc.Blocks != nil {
+			if sub := joinPath(k.prefix, rel); sub != "" && k.c.holdsCounter(sub) {
+				return k.applySummary(s, x, k.c.summaryAt(sc, sub))
+			}
+		}
 		// a method of the same instance
 		if sc.Signature.Recv() != nil && namedOf(sc.Signature.Recv().Type()) == k.c.recv && cc.Args[0] == ssa.Value(k.fn.Params[0]) {
 			if k.c.opaque[sc] {
 				return s, true, nil
 			}
-			sum := k.c.summary(sc)
-			if sum == nil || sum.top {
-				s.top = true
-				return s, true, nil
-			}
-			var outs []r6state
-			for _, dk := range sortedKeys(sum.deltas) {
-				ns := s
-				for f, d := range sum.deltas[dk] {
-					ns = ns.add(f, d)
+			// constant boolean arguments select the callee's behaviour (a helper shared by two flavours of a handler)
+			spec := map[int]bool{}
+			for i, a := range cc.Args {
+				if i == 0 || i >= len(sc.Params) {
+					continue
 				}
-				if refs := x.Referrers(); refs != nil {
-					for _, ref := range *refs {
-						if ex, ok := ref.(*ssa.Extract); ok {
-							if bv, known := sum.bools[dk][ex.Index]; known {
-								id := k.num.id(ex)
-								ns.bt, ns.bf = ns.bt.without(id), ns.bf.without(id)
-								if bv {
-									ns.bt = ns.bt.with(id)
-								} else {
-									ns.bf = ns.bf.with(id)
-								}
-							}
-						}
-					}
+				if cv, ok := constBool(a); ok {
+					spec[i] = cv
+				} else if s.bt.has(k.num.id(a)) {
+					spec[i] = true
+				} else if s.bf.has(k.num.id(a)) {
+					spec[i] = false
 				}
-				outs = append(outs, ns)
 			}
-			if len(outs) == 0 {
-				// callee never returns normally with a nil-able error: path ends in error
-				return s, true, nil
+			if len(spec) > 0 {
+				return k.applySummary(s, x, k.c.summarySpec(sc, spec))
 			}
-			return outs[0], true, outs[1:]
+			return k.applySummary(s, x, k.c.summary(sc))
 		}
 	}
 	return s, true, nil
+}
+
+// applySummary continues a path with every outcome of a summarised callee.
+func (k *r6client) applySummary(s r6state, x *ssa.Call, sum *r6sum) (r6state, bool, []r6state) {
+	if sum == nil || sum.top {
+		s.top = true
+		return s, true, nil
+	}
+	var outs []r6state
+	for _, dk := range sortedKeys(sum.deltas) {
+		ns := s
+		for f, d := range sum.deltas[dk] {
+			ns = ns.add(f, d)
+		}
+		if refs := x.Referrers(); refs != nil {
+			for _, ref := range *refs {
+				if ex, ok := ref.(*ssa.Extract); ok {
+					if bv, known := sum.bools[dk][ex.Index]; known {
+						id := k.num.id(ex)
+						ns.bt, ns.bf = ns.bt.without(id), ns.bf.without(id)
+						if bv {
+							ns.bt = ns.bt.with(id)
+						} else {
+							ns.bf = ns.bf.with(id)
+						}
+					}
+				}
+			}
+		}
+		// a single boolean result is the call value itself
+		if b, ok := x.Type().Underlying().(*types.Basic); ok && b.Kind() == types.Bool {
+			if bv, known := sum.bools[dk][0]; known {
+				id := k.num.id(x)
+				ns.bt, ns.bf = ns.bt.without(id), ns.bf.without(id)
+				if bv {
+					ns.bt = ns.bt.with(id)
+				} else {
+					ns.bf = ns.bf.with(id)
+				}
+			}
+		}
+		outs = append(outs, ns)
+	}
+	if len(outs) == 0 {
+		// callee never returns normally with a nil-able error: path ends in error
+		return s, true, nil
+	}
+	return outs[0], true, outs[1:]
 }
 
 func (k *r6client) Branch(s r6state, cond ssa.Value, outcome bool) (r6state, bool) {
@@ -293,16 +398,87 @@ func (c *r6ctx) summary(f *ssa.Function) *r6sum {
 	return k.out
 }
 
-// discoverCounters finds the nesting counters of a receiver type.
+// summarySpec: the effect of a method of the same instance when some of its
+// boolean parameters have known values.
+func (c *r6ctx) summarySpec(f *ssa.Function, spec map[int]bool) *r6sum {
+	var parts []string
+	for i, v := range spec {
+		parts = append(parts, fmt.Sprintf("%d=%v", i, v))
+	}
+	sort.Strings(parts)
+	key := fmt.Sprintf("%p|spec|%s", f, strings.Join(parts, ","))
+	if s, ok := c.subSums[key]; ok {
+		return s
+	}
+	if c.busy[f] || f.Blocks == nil {
+		return nil
+	}
+	c.busy[f] = true
+	defer delete(c.busy, f)
+	k := &r6client{c: c, fn: f, num: newNumbering(), out: &r6sum{deltas: map[string]map[string]int{}, bools: map[string]map[int]bool{}}}
+	init := r6state{}
+	for i, v := range spec {
+		if bt, ok := f.Params[i].Type().Underlying().(*types.Basic); !ok || bt.Kind() != types.Bool {
+			continue
+		}
+		if v {
+			init.bt = init.bt.with(k.num.id(f.Params[i]))
+		} else {
+			init.bf = init.bf.with(k.num.id(f.Params[i]))
+		}
+	}
+	_, capped := WalkPaths[r6state](k, f.Blocks[0], 0, init, 200000, nil)
+	if capped {
+		k.out.top = true
+	}
+	if c.subSums == nil {
+		c.subSums = map[string]*r6sum{}
+	}
+	c.subSums[key] = k.out
+	return k.out
+}
+
+// summaryAt: the effect of a method of a helper value that sits at field path
+// prefix inside the checked receiver.
+func (c *r6ctx) summaryAt(f *ssa.Function, prefix string) *r6sum {
+	key := fmt.Sprintf("%p|%s", f, prefix)
+	if s, ok := c.subSums[key]; ok {
+		return s
+	}
+	if c.busy[f] || f.Blocks == nil {
+		return nil
+	}
+	c.busy[f] = true
+	defer delete(c.busy, f)
+	k := &r6client{c: c, fn: f, prefix: prefix, num: newNumbering(), out: &r6sum{deltas: map[string]map[string]int{}, bools: map[string]map[int]bool{}}}
+	_, capped := WalkPaths[r6state](k, f.Blocks[0], 0, r6state{}, 200000, nil)
+	if capped {
+		k.out.top = true
+	}
+	if c.subSums == nil {
+		c.subSums = map[string]*r6sum{}
+	}
+	c.subSums[key] = k.out
+	return k.out
+}
+
+// discoverCounters finds the nesting counters of a receiver type: fields (or
+// fields of helper structs held by value) with push and pop, and depth ints.
 func discoverCounters(p *core.Prog, named *types.Named) map[string]bool {
 	out := map[string]bool{}
+	discoverCountersAt(named, "", 0, out)
+	return out
+}
+
+func discoverCountersAt(named *types.Named, prefix string, depth int, out map[string]bool) {
 	st, ok := named.Underlying().(*types.Struct)
-	if !ok {
-		return out
+	if !ok || depth > 2 {
+		return
 	}
 	for i := 0; i < st.NumFields(); i++ {
 		f := st.Field(i)
 		ft := f.Type()
+		fname := joinPath(prefix, core.FieldName(st, i))
 		if n := namedOf(ft); n != nil {
 			ms := types.NewMethodSet(types.NewPointer(n))
 			hasPush, hasPop := false, false
@@ -315,14 +491,18 @@ func discoverCounters(p *core.Prog, named *types.Named) map[string]bool {
 				}
 			}
 			if hasPush && hasPop {
-				out[f.Name()] = true
+				out[fname] = true
+				continue
+			}
+			// a helper struct of the same package held by value may bundle the counters with their operations
+			if _, isStruct := n.Underlying().(*types.Struct); isStruct && n.Obj().Pkg() == named.Obj().Pkg() {
+				discoverCountersAt(n, fname, depth+1, out)
 			}
 		}
-		if b, ok := ft.Underlying().(*types.Basic); ok && b.Kind() == types.Int && strings.Contains(strings.ToLower(f.Name()), "depth") {
-			out[f.Name()] = true
+		if b, ok := ft.Underlying().(*types.Basic); ok && b.Kind() == types.Int && strings.Contains(strings.ToLower(core.FieldName(st, i)), "depth") {
+			out[fname] = true
 		}
 	}
-	return out
 }
 
 // encoderSpec: one consumer type checked by R6.
@@ -419,23 +599,14 @@ func R6(pkgs ...string) func(p *core.Prog) *core.Result {
 				}
 			}
 			if es.typ == "ExpectObjVisitor" {
-				checkGuard(p, r, named)
+				checkGuard(p, r, named, ctx.counters)
 				// REARM: the adapter is re-armed for the next value with SetActive; a value can be abandoned half way
 				// (its folder failed), so re-arming resets every nesting counter the events move
 				if sa := p.LookupFunc(es.pkg, "(*"+es.typ+").SetActive"); sa == nil {
 					r.Undecided(".REARM", es.pkg+"."+es.typ+".SetActive", "re-arm method not found")
 				} else {
 					for _, c := range cn {
-						reset := false
-						for _, b := range sa.Blocks {
-							for _, in := range b.Instrs {
-								if st, ok := in.(*ssa.Store); ok && fieldOfReceiver(sa, st.Addr) == c {
-									if _, isC := st.Val.(*ssa.Const); isC {
-										reset = true
-									}
-								}
-							}
-						}
+						reset := storesConstAt(sa, "", c, 0)
 						if reset {
 							r.Ok(".REARM", p.Pos(sa.Pos()), core.FuncKey(sa)+" resets "+c)
 						} else {
@@ -459,7 +630,7 @@ func R6(pkgs ...string) func(p *core.Prog) *core.Result {
 // checkGuard: every event of ExpectObjVisitor other than the object
 // start/finish pair calls check() before it forwards anything to the wrapped
 // visitor.
-func checkGuard(p *core.Prog, r *core.Result, named *types.Named) {
+func checkGuard(p *core.Prog, r *core.Result, named *types.Named, counters map[string]bool) {
 	ms := p.SSA.MethodSets.MethodSet(types.NewPointer(named))
 	n := 0
 	for i := 0; i < ms.Len(); i++ {
@@ -472,17 +643,20 @@ func checkGuard(p *core.Prog, r *core.Result, named *types.Named) {
 			continue
 		}
 		n++
-		// dominance: the block of every invoke on the wrapped visitor is dominated by a block containing a call to check whose error was tested
+		// dominance: the block of every invoke on the wrapped visitor is dominated by a block containing a call to the
+		// inside-object guard (a method that returns an error while the depth counter is zero), or by the non-zero edge
+		// of such a test written inline
 		var checkBlocks []*ssa.BasicBlock
 		for _, b := range f.Blocks {
 			for _, in := range b.Instrs {
 				if c, ok := in.(*ssa.Call); ok {
-					if sc := c.Common().StaticCallee(); sc != nil && core.FuncName(sc) == "check" {
+					if sc := c.Common().StaticCallee(); sc != nil && sc != f && sc.Signature.Recv() != nil && namedOf(sc.Signature.Recv().Type()) == named && len(depthGuardEdges(sc, counters)) > 0 {
 						checkBlocks = append(checkBlocks, b)
 					}
 				}
 			}
 		}
+		inline := depthGuardEdges(f, counters)
 		ok2 := true
 		for _, b := range f.Blocks {
 			for _, in := range b.Instrs {
@@ -493,6 +667,11 @@ func checkGuard(p *core.Prog, r *core.Result, named *types.Named) {
 				dominated := false
 				for _, cb := range checkBlocks {
 					if cb != b && cb.Dominates(b) {
+						dominated = true
+					}
+				}
+				for _, nz := range inline {
+					if len(nz.Preds) == 1 && nz.Dominates(b) {
 						dominated = true
 					}
 				}
@@ -509,6 +688,111 @@ func checkGuard(p *core.Prog, r *core.Result, named *types.Named) {
 		}
 	}
 	r.Floor("expectobj_guarded_methods", n, 20)
+}
+
+// storesConstAt: f (whose receiver sits at field path prefix of the checked
+// type) stores a constant to the counter at path, itself or through a method of
+// the helper value that holds it.
+func storesConstAt(f *ssa.Function, prefix, path string, depth int) bool {
+	if f.Blocks == nil || depth > 2 {
+		return false
+	}
+	for _, b := range f.Blocks {
+		for _, in := range b.Instrs {
+			switch x := in.(type) {
+			case *ssa.Store:
+				if _, isC := x.Val.(*ssa.Const); !isC {
+					continue
+				}
+				if rel, ok := recvPath(f, x.Addr); ok && joinPath(prefix, rel) == path {
+					return true
+				}
+				if prefix == "" && fieldOfReceiver(f, x.Addr) == path {
+					return true
+				}
+			case *ssa.Call:
+				sc := x.Common().StaticCallee()
+				if sc == nil || sc.Signature.Recv() == nil || len(x.Common().Args) == 0 {
+					continue
+				}
+				if rel, ok := recvPath(f, x.Common().Args[0]); ok {
+					sub := joinPath(prefix, rel)
+					if sub != "" && (sub == path || strings.HasPrefix(path, sub+".")) && storesConstAt(sc, sub, path, depth+1) {
+						return true
+					}
+				}
+			}
+		}
+	}
+	return false
+}
+
+// depthGuardEdges: the blocks entered only when a depth counter of the
+// receiver is non-zero, where the zero side of the same test returns a non-nil
+// error (the "inside the expected object" guard).
+func depthGuardEdges(f *ssa.Function, counters map[string]bool) []*ssa.BasicBlock {
+	var out []*ssa.BasicBlock
+	ei := errResultIndex(f.Signature)
+	if ei < 0 || f.Blocks == nil {
+		return nil
+	}
+	isCounter := func(v ssa.Value) bool {
+		for i := 0; i < 3; i++ {
+			switch x := v.(type) {
+			case *ssa.Convert:
+				v = x.X
+				continue
+			case *ssa.ChangeType:
+				v = x.X
+				continue
+			case *ssa.UnOp:
+				if x.Op == token.MUL {
+					if rel, ok := recvPath(f, x.X); ok && counters[rel] {
+						return true
+					}
+				}
+			}
+			break
+		}
+		return false
+	}
+	for _, b := range f.Blocks {
+		iff, ok := b.Instrs[len(b.Instrs)-1].(*ssa.If)
+		if !ok {
+			continue
+		}
+		bo, ok := iff.Cond.(*ssa.BinOp)
+		if !ok {
+			continue
+		}
+		zeroSucc := -1
+		switch {
+		case isCounter(bo.X) && isIntConst(bo.Y, 0):
+			switch bo.Op {
+			case token.EQL, token.LEQ:
+				zeroSucc = 0
+			case token.NEQ, token.GTR:
+				zeroSucc = 1
+			}
+		case isCounter(bo.Y) && isIntConst(bo.X, 0):
+			switch bo.Op {
+			case token.EQL, token.GEQ:
+				zeroSucc = 0
+			case token.NEQ, token.LSS:
+				zeroSucc = 1
+			}
+		}
+		if zeroSucc < 0 {
+			continue
+		}
+		zb := b.Succs[zeroSucc]
+		ret, ok := zb.Instrs[len(zb.Instrs)-1].(*ssa.Return)
+		if !ok || len(zb.Preds) != 1 || !definitelyNonNilError(ret.Results[ei]) {
+			continue
+		}
+		out = append(out, b.Succs[1-zeroSucc])
+	}
+	return out
 }
 
 // threshold normalises `v OP c` (true-set) to (lowerHalf bool, k): the true
